@@ -108,8 +108,8 @@ func (dist *GParetoDistribution) LogPdf(r Scalar, x ConstScalar) error {
     r.Mul(r, dist.Xi)
     r.Log1p(r)
     r.Mul(r, dist.cx2) // cx2 = -1/xi - 1
-    r.Sub(r, dist.cs)  // cs  = log sigma
   }
+  r.Sub(r, dist.cs)  // cs  = log sigma
 
   return nil
 }
